@@ -7,12 +7,12 @@ import time
 
 import sctrace as sc
 
-MUT_C08 = ['update-tmp-otherfs', 'add-user-tmp-otherfs', 'init-scrypt', 'init-argon', 'add-user-scrypt', 'add-user-argon', 'add-admin', 'add-user-notmp',
+MUT_C08 = ['update-hashfile-symlink', 'update-tmp-otherfs', 'add-user-tmp-otherfs', 'init-scrypt', 'init-argon', 'add-user-scrypt', 'add-user-argon', 'add-admin', 'add-user-notmp',
            'update-noaux-scrypt', 'update-noaux-argon', 'update-aux100', 'update-aux5k', 'update-aux70k-oneline',
            'update-aux1m', 'update-aux-crlf-nonl', 'update-admin', 'update-notmp', 'add-user-tmp-is-file', 'update-tmp-is-file']
 QUICK_C08 = ['update-tmp-otherfs', 'init-argon', 'add-user-scrypt', 'add-user-notmp', 'add-user-tmp-is-file', 'update-tmp-is-file', 'update-noaux-argon', 'update-aux5k', 'update-aux70k-oneline', 'update-aux-crlf-nonl', 'update-admin']
 MUT_C09 = [x for x in MUT_C08 if 'tmp-is-file' not in x and 'dangling' not in x] + ['setadmin-up', 'setadmin-down', 'setadmin-same', 'remove-user', 'remove-admin', 'remove-nonexistent']
-QUICK_C09 = ['update-tmp-otherfs', 'init-scrypt', 'add-user-argon', 'add-admin', 'update-aux100', 'update-aux5k', 'update-aux-crlf-nonl', 'setadmin-up', 'setadmin-down', 'remove-user', 'remove-admin', 'remove-nonexistent']
+QUICK_C09 = ['update-hashfile-symlink', 'update-tmp-otherfs', 'init-scrypt', 'add-user-argon', 'add-admin', 'update-aux100', 'update-aux5k', 'update-aux-crlf-nonl', 'setadmin-up', 'setadmin-down', 'remove-user', 'remove-admin', 'remove-nonexistent']
 FAIL_SEM = ['add-existing', 'update-nonexistent', 'setadmin-nonexistent', 'init-nonempty', 'add-user-tmp-is-file', 'update-tmp-is-file', 'update-tmp-dangling-symlink']
 RO = ['ro-auth-ok', 'ro-auth-wrong', 'ro-auth-upgradeable', 'ro-auth-nonexistent', 'ro-exists', 'ro-list', 'ro-listfull', 'ro-check']
 
